@@ -365,6 +365,39 @@ def stddevs(x):
     return x._new(V._map1(C.rsqrt, x._v), var=None)
 
 
+class _Reducer:
+    """sc.reduce(items): lazy reduction over a sequence of variables of equal dims, unit and dtype (scipp refuses otherwise)."""
+
+    _DIM = 'reduce!'
+
+    def __init__(self, items):
+        self._items = list(items)
+        if not self._items:
+            raise ValueError('reduce: empty sequence')
+
+    def _red(self, kind):
+        return getattr(concat(self._items, self._DIM), kind)(self._DIM)
+
+    def min(self):
+        return self._red('min')
+
+    def max(self):
+        return self._red('max')
+
+    def sum(self):
+        return self._red('sum')
+
+    def all(self):
+        return self._red('all')
+
+    def any(self):
+        return self._red('any')
+
+
+def reduce(x):
+    return _Reducer(x)
+
+
 def concat(x, dim):
     x = list(x)
     if isinstance(x[0], DataArray):
@@ -917,7 +950,7 @@ def build_module():
     g = globals()
     for k in ('scalar index array vector vectors zeros ones empty full zeros_like ones_like empty_like full_like arange linspace '
               'sqrt reciprocal abs sin cos tan asin acos atan exp log round floor ceil isnan isfinite atan2 pow norm dot '
-              'cross where nan_to_num min max sum mean all any cumsum values variances stddevs concat identical allclose '
+              'cross where nan_to_num min max sum mean all any cumsum values variances stddevs concat reduce identical allclose '
               'issorted sort midpoints isclose transpose squeeze flatten fold broadcast add subtract multiply divide negative '
               'less greater less_equal greater_equal equal not_equal logical_and logical_or logical_not to_unit bins '
               'DataArray DataGroup Dataset Coords Variable DType Unit UnitError DTypeError DimensionError VariancesError '
